@@ -106,6 +106,7 @@ int lab_sink_id(struct upipe *sink);
 /* requests currently registered on the sink */
 int lab_sink_nb_requests(struct upipe *sink);
 bool lab_sink_has_request(struct upipe *sink, struct urequest *req_or_proxy_of);
+extern uint64_t lab_sink_latency;   /* latency announced by the laboratory sinks */
 /* answer again all ubuf_mgr/uref_mgr/uclock requests currently registered */
 void lab_sink_provide_all(struct upipe *sink);
 /* inputs seen since the beginning of the case */
